@@ -43,6 +43,7 @@ type BatchResult struct {
 	AloneChecked bool
 	AloneRun     int    // which run (the last volume run of the batch if there is one, else the last run)
 	AloneHash    string // its result digest ("" if that process did not complete the run)
+	AloneNA      bool   // two history-free processes disagree with each other: O8 does not apply to this tree
 }
 
 type splitmix struct{ s uint64 }
@@ -173,8 +174,9 @@ func batchArgs(bt Batch) []string {
 	return a
 }
 
-// aloneCheck switches oracle O8 on (check command) or off (selftest, minimiser).
-var aloneCheck bool
+// aloneCheck switches oracle O8 on (check command) or off (selftest, minimiser); aloneNA is set once two
+// history-free processes have been seen to disagree (O8 is then skipped for the rest of the check).
+var aloneCheck, aloneNA bool
 
 // runBatches executes all batches on a pool of worker processes.
 func runBatches(b *Build, batches []Batch, workers int, perBatchTimeout time.Duration, stopOnViolation bool) []*BatchResult {
@@ -200,7 +202,10 @@ func runBatches(b *Build, batches []Batch, workers int, perBatchTimeout time.Dur
 				prefix := filepath.Join(b.Scratch, fmt.Sprintf("race-%d", bt.ID))
 				r := runWorker(b, bt.Race, batchArgs(bt), prefix, perBatchTimeout)
 				r.Batch = bt
-				if aloneCheck && r.ExitCode == 0 && r.Viol == nil && !r.TimedOut && bt.Runs > 1 && len(r.Done) == bt.Runs {
+				mu.Lock()
+				na := aloneNA
+				mu.Unlock()
+				if aloneCheck && !na && r.ExitCode == 0 && r.Viol == nil && !r.TimedOut && bt.Runs > 1 && len(r.Done) == bt.Runs {
 					// O8: the same run without the history of the batch
 					k := bt.Runs - 1
 					for j := range r.Done {
@@ -214,13 +219,24 @@ func runBatches(b *Build, batches []Batch, workers int, perBatchTimeout time.Dur
 						r.AloneHash = a.Done[0].ResHash
 					}
 					r.RaceLog += a.RaceLog
+					if r.AloneHash != "" && r.AloneHash != r.Done[k].ResHash {
+						// a difference: is it history?  A second history-free process must agree with the first one;
+						// if it does not, results vary from process to process for another reason and O8 does not apply
+						a2 := runWorker(b, bt.Race, append(batchArgs(bt), "-only", fmt.Sprint(k), "-backwards"), prefix+"-alone2", perBatchTimeout)
+						if a2.ExitCode == 0 && len(a2.Done) == 1 && a2.Done[0].ResHash != r.AloneHash {
+							r.AloneNA = true
+							mu.Lock()
+							aloneNA = true
+							mu.Unlock()
+						}
+					}
 				}
 				mu.Lock()
 				results[i] = r
 				if stopOnViolation && (r.Viol != nil || r.ExitCode != 0) {
 					stop = true
 				}
-				if stopOnViolation && r.AloneChecked && r.AloneHash != "" && r.AloneRun < len(r.Done) && r.AloneHash != r.Done[r.AloneRun].ResHash {
+				if stopOnViolation && r.AloneChecked && !r.AloneNA && r.AloneHash != "" && r.AloneRun < len(r.Done) && r.AloneHash != r.Done[r.AloneRun].ResHash {
 					stop = true // O8 difference: reported after the batches in flight have finished
 				}
 				mu.Unlock()
